@@ -28,7 +28,7 @@ RULE = ('plan kinds: (a) stream = good/bad frames (bad = one of 25 '
         'just below / at / above the real response size. Non-trivial: the '
         'stream has an undecodable frame followed by a valid one and a '
         'non-trivial chunk plan. Distinct = stream digest.')
-PROBES = ['final_request_vs_fresh_server', 'undecodable_then_good', 'decodable_mutant', 'all_split_points',
+PROBES = ['fewer_items_than_announced', 'final_request_vs_fresh_server', 'undecodable_then_good', 'decodable_mutant', 'all_split_points',
           'response_too_large', 'response_fits_exactly', 'trickle',
           'header_split', 'timeout_fault', 'reset_fault', 'eof_mid_frame',
           'whole_connection', 'deep_nesting', 'leftover_bytes',
@@ -226,6 +226,37 @@ def leaf_truncated(frame):
         return False
     ln0 = _s.unpack_from('!I', buf, 4)[0]
     return walk(8, min(8 + ln0, len(buf)), 1, top=True)
+
+
+def announced_items_missing(frame):
+    """True iff the request header announces more batch items than the
+    message holds (independent of kmip): such a request cannot be decoded
+    completely - the items it promises are not there."""
+    import struct as _s
+    buf = bytes(frame)
+    if len(buf) < 16 or buf[:3] != b'\x42\x00\x78' or buf[3] != 1:
+        return False
+    end = min(len(buf), 8 + _s.unpack_from('!I', buf, 4)[0])
+    pos = 8
+    count = None
+    items = 0
+    while end - pos >= 8:
+        if buf[pos] not in (0x42, 0x54) or not 1 <= buf[pos + 3] <= 10:
+            break
+        tag = buf[pos:pos + 3]
+        ln = _s.unpack_from('!I', buf, pos + 4)[0]
+        if tag == b'\x42\x00\x77' and buf[pos + 3] == 1:
+            q, qend = pos + 8, min(end, pos + 8 + ln)
+            while qend - q >= 16:
+                l2 = _s.unpack_from('!I', buf, q + 4)[0]
+                if buf[q:q + 3] == b'\x42\x00\x0d' and l2 == 4 and \
+                        buf[q + 3] == 2:
+                    count = _s.unpack_from('!i', buf, q + 8)[0]
+                q += 8 + l2 + ((8 - l2 % 8) % 8)
+        elif tag == b'\x42\x00\x0f' and buf[pos + 3] == 1:
+            items += 1
+        pos += 8 + ln + ((8 - ln % 8) % 8)
+    return count is not None and 0 < count <= 64 and items < count
 
 
 def decodable(frame):
@@ -464,6 +495,11 @@ def execute(plan):
                                         for it in rp.items)):
                 flag('truncated-value-executed', why=None,
                      frame=f.hex()[:400], result=rp.plain())
+            if announced_items_missing(f):
+                probes['fewer_items_than_announced'] += 1
+                if x['entered'] or x['changed']:
+                    flag('incomplete-batch-executed', why=None,
+                         frame=f.hex()[:400], result=rp.plain())
             if not dec[i]:
                 if x['entered']:
                     flag('undecodable-request-reached-engine', why=None,
